@@ -97,6 +97,9 @@ def dStep (d : DSt) (op : List String) : DSt × String :=
       let st := (List.range nfree).foldl (fun st _ => if st.2.1.length < 256 then conn st else st) st
       (d, joinWith "," st.2.2.2)
     | none => (d, "bad-op")
+  | ["QM"] =>
+    let rows := (d.s.tasks.filter (·.inTable)).map fun t => (t.uid, s!"{t.uid}:{t.owner}:{t.maxSimul}")
+    (d, joinWith "," ((rows.toArray.qsort (fun a b => a.1 < b.1)).toList.map (·.2)))
   | ["Q"] => (d, showTable d.s)
   | ["L"] => (d, showFiles d.s)
   | ["P", v] => ({ d with s := { d.s with spawnFail := v == "1" } }, "p")
